@@ -41,9 +41,53 @@ func init() {
 
 const (
 	socksSlackUs   = 250000 // same as Driver/Socks.lean socksSlack
-	socksSrvTolUs  = 8000   // a server step later than planned by more than this invalidates the attempt
+	socksSrvTolUs  = 10000  // a server step later than planned by more than this invalidates the attempt
 	socksHandshake = 100    // µs: what the scripts say a loopback handshake takes
 )
+
+// ------------------------------------------------------------------ environment noise
+
+// A heartbeat goroutine sleeps 1 ms at a time and records every interval in which it overslept by more
+// than socksNoiseTol: scheduling noise of the box (other processes), measured independently of the code
+// under test.  A timing-sensitive attempt that overlaps such an interval is repeated.
+const socksNoiseTol = 10 * time.Millisecond
+
+var socksNoise struct {
+	once sync.Once
+	mu   sync.Mutex
+	ivs  [][2]time.Time
+}
+
+func socksHeartbeat() {
+	socksNoise.once.Do(func() {
+		go func() {
+			for {
+				t := time.Now()
+				time.Sleep(time.Millisecond)
+				if now := time.Now(); now.Sub(t)-time.Millisecond > socksNoiseTol {
+					socksNoise.mu.Lock()
+					socksNoise.ivs = append(socksNoise.ivs, [2]time.Time{t, now})
+					socksNoise.mu.Unlock()
+				}
+			}
+		}()
+	})
+}
+
+func socksNoisy(from, to time.Time) bool {
+	socksNoise.mu.Lock()
+	defer socksNoise.mu.Unlock()
+	for i := len(socksNoise.ivs) - 1; i >= 0; i-- {
+		iv := socksNoise.ivs[i]
+		if iv[1].Before(from) {
+			break
+		}
+		if iv[0].Before(to) {
+			return true
+		}
+	}
+	return false
+}
 
 // ------------------------------------------------------------------ error classification
 
@@ -183,6 +227,15 @@ func loDown() {
 	}
 }
 
+func loUp() {
+	if os.Getenv("VERIF_SOCKS_NETNS") != "1" {
+		panic("loUp outside a private network namespace")
+	}
+	if out, err := exec.Command("ip", "link", "set", "lo", "up").CombinedOutput(); err != nil {
+		panic(fmt.Sprintf("ip link set lo up: %v %s", err, out))
+	}
+}
+
 // serve plays the read events on one accepted connection.
 func (s *socksServer) serve(c net.Conn, reads []socksReadEv, rg bool, blackhole bool) {
 	defer close(s.done)
@@ -312,7 +365,7 @@ func startSocksServer(ip string, port int, dial string, reads []socksReadEv, rg,
 		addr := fmt.Sprintf("%s:%d", ip, p)
 		// fill the queue until a dial stalls
 		for i := 0; i < 8; i++ {
-			c, err := net.DialTimeout("tcp4", addr, 40*time.Millisecond)
+			c, err := net.DialTimeout("tcp4", addr, 200*time.Millisecond)
 			if err != nil {
 				var ne net.Error
 				if errors.As(err, &ne) && ne.Timeout() {
@@ -342,11 +395,14 @@ func runSocksP(f []string) (string, int) {
 	if f[7] == "never" && os.Getenv("VERIF_SOCKS_NETNS") != "1" {
 		return runSocksInNetns(f)
 	}
+	socksHeartbeat()
 	out, port := "", 0
-	for attempt := 0; attempt < 4; attempt++ {
+	for attempt := 0; attempt < 6; attempt++ {
 		var late bool
+		from := time.Now()
 		out, late, port = runSocksOnce(f)
-		if !late {
+		time.Sleep(2 * time.Millisecond) // let the heartbeat close an interval that is still open
+		if !late && !socksNoisy(from, time.Now()) {
 			break
 		}
 	}
@@ -361,6 +417,9 @@ func runSocksOnce(f []string) (string, bool, int) {
 	dial, reads, fin, cancelS, rg := f[4], parseSocksReads(f[6]), f[7], f[8], f[9] == "1"
 	if f[5] != "ok:0" {
 		return "out=unsupported-write-script;us=0;g=-", false, 0
+	}
+	if fin == "never" {
+		loUp() // a previous attempt in this namespace has taken it down
 	}
 	srv, p, err := startSocksServer(ip, port, dial, reads, rg, fin == "never")
 	if err != nil {
@@ -469,9 +528,16 @@ func socksNetnsChild(r *hx.Run) {
 	if os.Getenv("VERIF_SOCKS_NETNS") != "1" {
 		panic("socks-netns-child is internal")
 	}
-	if out, err := exec.Command("ip", "link", "set", "lo", "up").CombinedOutput(); err != nil {
-		panic(fmt.Sprintf("ip link set lo up: %v %s", err, out))
+	loUp()
+	// warm up: the loopback interface has just come up and this process has just started
+	socksHeartbeat()
+	if ln, err := net.Listen("tcp4", "127.0.0.1:0"); err == nil {
+		if c, err := net.DialTimeout("tcp4", ln.Addr().String(), time.Second); err == nil {
+			c.Close()
+		}
+		ln.Close()
 	}
+	time.Sleep(20 * time.Millisecond)
 	f := strings.Split(os.Getenv("VERIF_SOCKS_CASE"), "\t")
 	out, port := runSocksP(f)
 	r.Case("", fmt.Sprintf("%s;port=%d", out, port))
@@ -585,7 +651,8 @@ type socksJob struct {
 func socksComponent(r *hx.Run) {
 	r.Rule = "socks: case = (connect/data timeouts, target 127.x.y.z:port, server script: dial ok|refused|silent x read events data@delay|eof|reset|stall x peer acknowledges our FIN or not, cancellation instant, server reads the greeting?) run through the real Scanner.Scan against a scripted loopback server; all first bytes with second 0 and all second bytes with first 5 (thorough: all 65536 replies), every split/drip/late-byte/extra-byte/flood/fault variant, cancellation before/during dial and during either read, peer turning unreachable (private netns, lo down); non-trivial class = scenario family x outcome family. socksio: (version, method list incl. 255/256/300 methods, write ok|error, read script over {05,00,0500,050000,empty,xx,eof,reset,stall}^<=k) through the real socksConn/WriteTo/ReadFrom over a recording in-memory conn"
 	thorough := r.Tier == "thorough"
-	const T = 40000 // µs: the scaled connect and data timeout
+	const T = 60000   // µs: the scaled connect and data timeout of the cases that wait for a timeout
+	const L = 1500000 // µs: timeouts of the cases in which no timeout is involved (they end at once)
 	var jobs []socksJob
 	ipOf := func() string {
 		return fmt.Sprintf("127.%d.%d.%d", r.Rng.Intn(256), r.Rng.Intn(256), 1+r.Rng.Intn(254))
@@ -612,7 +679,7 @@ func socksComponent(r *hx.Run) {
 		} else if b == 0 {
 			cls = "reply/method-only"
 		}
-		add(cls, T, T, "ok:"+hs, d([]byte{a, b}, "0"), "a0", "-", rg)
+		add(cls, L, L, "ok:"+hs, d([]byte{a, b}, "0"), "a0", "-", rg)
 	}
 	if thorough {
 		for a := 0; a < 256; a++ {
@@ -655,7 +722,7 @@ func socksComponent(r *hx.Run) {
 		if a == 5 && b == 0 {
 			cls = "split/0500"
 		}
-		add(cls, T, T, "ok:"+hs, d([]byte{a}, first)+","+d([]byte{b}, gap), "a0", "-", i%2 == 0)
+		add(cls, L, L, "ok:"+hs, d([]byte{a}, first)+","+d([]byte{b}, gap), "a0", "-", i%2 == 0)
 	}
 	// C. extra bytes, garbage, flood, drip feed
 	nExtra := 30
@@ -673,17 +740,17 @@ func socksComponent(r *hx.Run) {
 		}
 		switch i % 4 {
 		case 0: // everything in one segment
-			add(cls+"/one-segment", T, T, "ok:"+hs, d(append(append([]byte{}, head...), tail...), "0"), "a0", "-", true)
+			add(cls+"/one-segment", L, L, "ok:"+hs, d(append(append([]byte{}, head...), tail...), "0"), "a0", "-", true)
 		case 1: // first byte alone, then the rest and the tail together
-			add(cls+"/1+rest", T, T, "ok:"+hs, d(head[:1], "0")+","+d(append(append([]byte{}, head[1:]...), tail...), us(0.25)), "a0", "-", true)
+			add(cls+"/1+rest", L, L, "ok:"+hs, d(head[:1], "0")+","+d(append(append([]byte{}, head[1:]...), tail...), us(0.25)), "a0", "-", true)
 		case 2: // reply, then the tail later (after the probe has decided)
-			add(cls+"/tail-later", T, T, "ok:"+hs, d(head, "0")+","+d(tail, us(0.25)), "a0", "-", false)
+			add(cls+"/tail-later", L, L, "ok:"+hs, d(head, "0")+","+d(tail, us(0.25)), "a0", "-", false)
 		case 3: // drip feed: one byte every 0.3 T, many bytes
 			evs := []string{d(head[:1], us(0.3)), d(head[1:], us(0.3))}
 			for k := 0; k < 4 && k < len(tail); k++ {
 				evs = append(evs, d(tail[k:k+1], us(0.3)))
 			}
-			add(cls+"/drip", T, T, "ok:"+hs, strings.Join(evs, ","), "a0", "-", true)
+			add(cls+"/drip", L, L, "ok:"+hs, strings.Join(evs, ","), "a0", "-", true)
 		}
 	}
 	for i := 0; i < 4; i++ { // flood: 64 KiB at once
@@ -694,7 +761,7 @@ func socksComponent(r *hx.Run) {
 			big[0], big[1] = 5, 0
 			cls = "flood/0500"
 		}
-		add(cls, T, T, "ok:"+hs, d(big, "0"), "a0", "-", i < 2)
+		add(cls, L, L, "ok:"+hs, d(big, "0"), "a0", "-", i < 2)
 	}
 	// D. faults at every step
 	rep := 3
@@ -707,27 +774,29 @@ func socksComponent(r *hx.Run) {
 			x = 5
 		}
 		add("fault/refused", T, T, "refused:"+hs, "-", "a0", "-", false)
-		add("fault/accept-and-stall", T, T, "ok:"+hs, "s", "a0", "-", true)
-		add("fault/accept-and-stall/no-greeting-read", T, T, "ok:"+hs, "s", "a0", "-", false)
-		add("fault/one-byte-then-stall", T, T, "ok:"+hs, d([]byte{x}, "0")+",s", "a0", "-", true)
-		add("fault/one-late-byte-then-stall", T, T, "ok:"+hs, d([]byte{x}, us(0.5))+",s", "a0", "-", true)
-		add("fault/close-before-reading", T, T, "ok:"+hs, "r@"+us(0.25), "a0", "-", false)
-		add("fault/close-after-reading", T, T, "ok:"+hs, "e@0", "a0", "-", true)
-		add("fault/close-after-reading/delayed", T, T, "ok:"+hs, "e@"+us(0.4), "a0", "-", true)
-		add("fault/one-byte-then-close", T, T, "ok:"+hs, d([]byte{x}, "0")+",e@"+us(0.2), "a0", "-", true)
-		add("fault/reset-after-reading", T, T, "ok:"+hs, "r@0", "a0", "-", true)
-		add("fault/one-byte-then-reset", T, T, "ok:"+hs, d([]byte{x}, "0")+",r@"+us(0.2), "a0", "-", true)
+		add("fault/accept-and-stall", 5*T, T, "ok:"+hs, "s", "a0", "-", true)
+		add("fault/accept-and-stall/no-greeting-read", 5*T, T, "ok:"+hs, "s", "a0", "-", false)
+		add("fault/one-byte-then-stall", 5*T, T, "ok:"+hs, d([]byte{x}, "0")+",s", "a0", "-", true)
+		add("fault/one-late-byte-then-stall", 5*T, T, "ok:"+hs, d([]byte{x}, us(0.5))+",s", "a0", "-", true)
+		add("fault/close-before-reading", 5*T, T, "ok:"+hs, "r@"+us(0.25), "a0", "-", false)
+		add("fault/close-after-reading", 5*T, T, "ok:"+hs, "e@0", "a0", "-", true)
+		add("fault/close-after-reading/delayed", 5*T, T, "ok:"+hs, "e@"+us(0.4), "a0", "-", true)
+		add("fault/one-byte-then-close", 5*T, T, "ok:"+hs, d([]byte{x}, "0")+",e@"+us(0.2), "a0", "-", true)
+		add("fault/reset-after-reading", 5*T, T, "ok:"+hs, "r@0", "a0", "-", true)
+		add("fault/one-byte-then-reset", 5*T, T, "ok:"+hs, d([]byte{x}, "0")+",r@"+us(0.2), "a0", "-", true)
 		// deadlines are per Read call: late segments
-		add("late/reply-at-0.5T", T, T, "ok:"+hs, d([]byte{5, 0}, us(0.5)), "a0", "-", true)
-		add("late/reply-at-2T", T, T, "ok:"+hs, d([]byte{5, 0}, us(2)), "a0", "-", true)
-		add("late/0.5T+0.5T", T, T, "ok:"+hs, d([]byte{5}, us(0.5))+","+d([]byte{0}, us(0.5)), "a0", "-", true)
-		add("late/0.5T+2T", T, T, "ok:"+hs, d([]byte{5}, us(0.5))+","+d([]byte{0}, us(2)), "a0", "-", true)
-		add("late/close-at-2T", T, T, "ok:"+hs, "e@"+us(2), "a0", "-", true)
-		add("late/reset-at-2T", T, T, "ok:"+hs, "r@"+us(2), "a0", "-", true)
+		add("late/reply-at-0.5T", 5*T, T, "ok:"+hs, d([]byte{5, 0}, us(0.5)), "a0", "-", true)
+		add("late/reply-at-2T", 5*T, T, "ok:"+hs, d([]byte{5, 0}, us(2)), "a0", "-", true)
+		add("late/0.5T+0.5T", 5*T, T, "ok:"+hs, d([]byte{5}, us(0.5))+","+d([]byte{0}, us(0.5)), "a0", "-", true)
+		add("late/0.5T+2T", 5*T, T, "ok:"+hs, d([]byte{5}, us(0.5))+","+d([]byte{0}, us(2)), "a0", "-", true)
+		add("late/close-at-2T", 5*T, T, "ok:"+hs, "e@"+us(2), "a0", "-", true)
+		add("late/reset-at-2T", 5*T, T, "ok:"+hs, "r@"+us(2), "a0", "-", true)
 	}
 	for i := 0; i < 2; i++ {
 		add("fault/never-accepts", T, T, "silent:127000000", "-", "a0", "-", false)
 	}
+	add("timeouts/equal/stall", T, T, "ok:"+hs, "s", "a0", "-", true)
+	add("timeouts/equal/one-byte-then-stall", T, T, "ok:"+hs, d([]byte{5}, "0")+",s", "a0", "-", true)
 	// timeout settings: none / zero / tiny / different values for connect and data
 	add("timeouts/no-connect-timeout", 0, T, "ok:"+hs, d([]byte{5, 0}, "0"), "a0", "-", true)
 	add("timeouts/no-connect-timeout/refused", 0, T, "refused:"+hs, "-", "a0", "-", false)
@@ -737,7 +806,6 @@ func socksComponent(r *hx.Run) {
 	add("timeouts/long-data/stall", T, 3*T, "ok:"+hs, d([]byte{5}, us(1.5))+",s", "a0", "-", true)
 	add("timeouts/long-connect", 20*T, T, "ok:"+hs, "s", "a0", "-", true)
 	// E. cancellation (long timeouts, so that only the watchdog can end the probe in time)
-	const L = 1500000
 	nc := 2
 	if thorough {
 		nc = 8
@@ -752,15 +820,15 @@ func socksComponent(r *hx.Run) {
 		add("cancel/after-the-end/none", L, L, "ok:"+hs, d([]byte{5, 1}, "0"), "a0", "400000", true)
 	}
 	// F. the peer becomes unreachable after the handshake (tarpit / host gone): private netns, lo down
-	add("unreachable/after-greeting", T, T, "ok:"+hs, "s", "never", "-", true)
-	add("unreachable/after-one-byte", T, T, "ok:"+hs, d([]byte{5}, "0")+",s", "never", "-", true)
+	add("unreachable/after-greeting", 5*T, T, "ok:"+hs, "s", "never", "-", true)
+	add("unreachable/after-one-byte", 5*T, T, "ok:"+hs, d([]byte{5}, "0")+",s", "never", "-", true)
 	add("unreachable/cancel", L, L, "ok:"+hs, "s", "never", "60000", true)
 
 	// run (bounded parallelism; most of the time is spent sleeping)
 	outs := make([]string, len(jobs))
 	ports := make([]int, len(jobs))
 	var wg sync.WaitGroup
-	sem := make(chan struct{}, 48)
+	sem := make(chan struct{}, 32)
 	for i := range jobs {
 		wg.Add(1)
 		sem <- struct{}{}
